@@ -2,8 +2,8 @@
   Hand models (H) for C15:
   * QuadraticBezier.tOfPoint: the two generated `quadraticRoots` calls (coefficients from the generated
     `quad_tOfPoint_coeffs`), the emptiness test and the double loop matching roots within 2e-7;
-  * CubicBezier.tOfPoint: best of the regular samples, then the bracket-halving loop — transcribed as it
-    is, including `rdist = distance at *lower*` (so the upper candidate is never taken).
+  * CubicBezier.tOfPoint: best of the regular samples, then the bracket-halving loop (the pinned code
+    measured `rdist` at *lower*, so the upper candidate was never taken: repaired, F21).
   `dist` is the distance from the query point to the curve's point at a parameter (a parameter here).
 -/
 import BezierVerif.Gen.Roots
@@ -41,7 +41,7 @@ def refine (dist : K → K) (prec : K) (st : K × Option K) : K × Option K :=
   let lower := if bestT - prec < 0 then 0 else bestT - prec
   let upper := if bestT + prec > 1 then 1 else bestT + prec
   let ldist := dist lower
-  let rdist := dist lower          -- sic: the source evaluates `lower` twice
+  let rdist := dist upper
   let better (d : K) (b : Option K) : Bool := match b with | none => true | some bd => d < bd
   let st1 : K × Option K := if better ldist st.2 then (lower, some ldist) else st
   if better rdist st1.2 then (upper, some rdist) else st1
